@@ -531,4 +531,44 @@ def r15_7(run):
     run.floor(3)
 
 
-RULES = [("R15.7", r15_7), ("R15.6", r15_6), ("R15.1", r15_1), ("R15.2", r15_2), ("R15.3", r15_3), ("R15.4", r15_4), ("R15.5", r15_5)]
+def r15_8(run):
+    """loading restores what was saved: a from_dict may *add* an attribute that an old file does not have (a migration, guarded by
+    `not hasattr(obj, <name>)`), but it never replaces the value of an attribute that was stored -- a "default for invalid
+    values" applied while loading changes the loaded object whenever the stored value is outside what the default's author
+    thought of.  Every attribute assignment on the restored object in a from_dict of the package is therefore under an
+    absence test of that attribute."""
+    from ..arrnf import ANF, _facts_of, key as tkey, show as tshow
+    ix = run.index
+    n = 0
+    for f in ix.all_functions():
+        if f.name != "from_dict" or f.cls is None or ".test." in f.module:
+            continue
+        try:
+            r = ANF(ix, f).run()
+        except AnalysisError as ex:
+            raise AnalysisError("unrecognised shape: %s: %s" % (f.qualname, ex))
+        run.analysed(f)
+        n += 1
+        from ..arrnf import contains
+        dpar = ("n", f.params()[1]) if len(f.params()) > 1 else None
+        sets_ = []
+        for e in r.events:
+            if e.kind == "call" and e.fn == ("x", "builtins.setattr") and len(e.args) == 3 and e.args[1][0] == "c":
+                sets_.append((e, e.args[0], e.args[1][1], e.args[2]))
+            elif e.kind == "store" and len(e.index) == 1 and e.index[0][0] == "c" and isinstance(e.index[0][1], str) \
+                    and e.index[0][1].startswith(".") and e.base[0] in ("call", "n") and e.base != ("n", "cls"):
+                sets_.append((e, e.base, e.index[0][1][1:], e.value))
+        for e, obj, name, value in sets_:
+            facts = _facts_of(e.cond, r) if e.cond else {}
+            absent = facts.get(tkey(("call", ("x", "builtins.hasattr"), (obj, ("c", name)), ()))) is False
+            # rebuilding an attribute from what was stored (the dictionary, other restored attributes) is restoring, not defaulting
+            rebuilt = (dpar is not None and contains(value, dpar)) or contains(value, obj)
+            run.ob("%s.from_dict|%s|restored-not-defaulted" % (f.cls.name, name), absent or rebuilt,
+                   "%s.from_dict sets attribute %r from the stored data, or only where the loaded object does not have it"
+                   % (f.cls.name, name), run.where(f, e.node),
+                   detail="value %s under %s" % (tshow(value)[:80], [(tshow(c)[:80], p) for c, p in e.cond]))
+    run.ob("from_dict-methods-scanned", n >= 2, "from_dict methods of the package scanned: %d" % n, "src/pandapipes")
+    run.floor(2)
+
+
+RULES = [("R15.7", r15_7), ("R15.6", r15_6), ("R15.1", r15_1), ("R15.2", r15_2), ("R15.3", r15_3), ("R15.4", r15_4), ("R15.5", r15_5), ("R15.8", r15_8)]
